@@ -142,6 +142,19 @@ func validateLevel(cfg config.Validator) error {
 	}
 	v := reflect.ValueOf(cfg).Elem()
 	t := v.Type()
+	if validatorStyleNow == "library-error-colon" {
+		// ... or with an 'invalid' library error whose reason names the field after a colon
+		for i := 0; i < t.NumField(); i++ {
+			if requiredNow[t.Name()+"."+t.Field(i).Name] && v.Field(i).IsZero() {
+				name := t.Field(i).Tag.Get("mapstructure")
+				if name == "" {
+					name = t.Field(i).Name
+				}
+				return commonerrors.Newf(commonerrors.ErrInvalid, "required field is not set: %v", name)
+			}
+		}
+		return nil
+	}
 	if validatorStyleNow == "library-error" {
 		for i := 0; i < t.NumField(); i++ {
 			if requiredNow[t.Name()+"."+t.Field(i).Name] && v.Field(i).IsZero() {
